@@ -1060,7 +1060,9 @@ def hazard_model(gen, hazard):
     elif hazard == "escaped_other_quote_in_literal":
         decls.append(("const", D(gen.const_name(), type=_t(b"string"), value=("str", b"it's a \"quote\""))))
     elif hazard == "enum_ref_constant":
-        e = gen.type_name()
+        # the enum's name is used at a type position and as the head of a constant reference: keep it clear of
+        # both families of keyword prefixes (those are the hazards basetype_prefixed_type / bool_prefixed_const_ref)
+        e = gen.ident(avoid=TYPE_POS_BAD_PREFIX + CONST_REF_BAD_PREFIX)
         decls.append(("enum", D(e, values=[{"doc": None, "name": b"A", "explicit": None, "anns": []},
                                            {"doc": None, "name": b"B", "explicit": None, "anns": []}])))
         decls.append(("const", D(gen.const_name(), type=_t(e), value=("ident", e + b".B"))))
